@@ -5,12 +5,18 @@ Decided: the stop array layout (_pixman_init_gradient), the sentinel stops per r
 (gradient_walker_reset), and one fixed degenerate scanline case of the linear gradient.
 NOT decided (no real arithmetic, no sqrt/atan2 models, symbolic double multiply/divide does not finish):
 the colour half of the property and the float geometry of the three get_scanline functions."""
-from vdriver import Job
+from vdriver import Job, ext_jobs, ext_meta
 
 HEAP = ["--memory-leak-check"]
 REP = [(0, "none"), (1, "normal"), (2, "pad"), (3, "reflect")]
 A_POS = "gradient_walker_reset: |pos| < 2^47 (the nominal range of the 48.16 parameter; the code's own `pos - x` is the limit)"
 A_SORT = "sorted jobs: stop positions non-decreasing in [0, 65536] (the colour claim's domain in the property)"
+
+
+# extension modules merged into this property's job list (vdriver.ext_jobs / ext_meta)
+EXT = [
+    ("C13_grd", None),
+]
 
 
 def jobs(tier):
@@ -72,7 +78,7 @@ def jobs(tier):
                   domain="enforced function contract + loop invariant: any 1 <= num_stops <= 2^20, any stop positions/colours, any repeat, any "
                          "pos: stops[n-1] and stops[n] stay inside the n+2 block, only *walker is assigned, the loop terminates",
                   assumptions=["walkerD: signed-overflow check off (left_x + (pos - x) for extreme pos: the integer jobs walker.lookup.* carry |pos| < 2^47)"]))
-    return js
+    return js + ext_jobs(tier, EXT)
 
 
 META = {
@@ -91,3 +97,4 @@ META = {
         "more than 4 stops (lookup loop unrolled; no loop contract)",
     ],
 }
+META = ext_meta(META, EXT)
